@@ -602,6 +602,63 @@ fn check_ask(r: &mut Report, d: &mut Driver, p: &Project, uc: &UCmd, before: &[S
     r.corr("corr.cmd.ask", &canon(imp), &canon(model), case);
 }
 
+/// Tie of the model of `renew` (Vet/Model/Renew.lean): the end dates of the local wildcard audits
+/// after the real command against the model's, from the entries before and the publication days
+/// crates.io serves.
+fn check_renew(r: &mut Report, d: &mut Driver, p: &Project, krate: &Option<String>, before: &[String], after: &[String], live_before: Option<&Store>, case: &str) {
+    let (Some(b), Some(a)) = (load(before), load(after)) else { return };
+    let today = mock_today();
+    let cap = today + chrono::Months::new(12);
+    let names: Vec<&String> = b.audits.wildcard_audits.keys().collect();
+    let mut t = wire::Toks::new();
+    t.n(if krate.is_some() { 1 } else { 0 }).n(wire::day(&today)).n(wire::day(&cap));
+    match krate {
+        Some(k) => { t.n(names.iter().position(|n| *n == k).unwrap_or(9999)); }
+        None => { t.n(1); }
+    }
+    t.n(names.len());
+    for (i, n) in names.iter().enumerate() {
+        t.n(i);
+        let lp = live_before.and_then(|s| s.live_imports.as_ref()).and_then(|l| l.publisher.get(*n)).and_then(|l| l.iter().map(|q| q.when).max());
+        match lp {
+            Some(day) => { t.n(wire::day(&day) + 1); }
+            None => { t.n(0); }
+        }
+        let l = &b.audits.wildcard_audits[*n];
+        t.n(l.len());
+        for e in l {
+            t.n(wire::day(&e.end)).n(match e.renew { None => 0, Some(false) => 1, Some(true) => 2 });
+        }
+    }
+    let ans = d.ask(&format!("renew {}", t.text()));
+    // the implementation's end dates, entries matched by position in the (sorted) table; a renewal
+    // changes `end`, which is part of the sort key, so compare as multisets per crate
+    let mut imp = wire::Toks::new();
+    imp.n(names.len());
+    let mut model_sorted = String::new();
+    for (i, n) in names.iter().enumerate() {
+        let mut ends: Vec<usize> = a.audits.wildcard_audits.get(*n).map(|l| l.iter().map(|e| wire::day(&e.end)).collect()).unwrap_or_default();
+        ends.sort();
+        imp.n(i).list(&ends);
+    }
+    if let Some(body) = ans.strip_prefix("ok ") {
+        let toks: Vec<usize> = body.split(' ').filter_map(|x| x.parse().ok()).collect();
+        let mut pos = 1;
+        let mut out = wire::Toks::new();
+        out.n(toks.first().copied().unwrap_or(0));
+        while pos + 1 < toks.len() {
+            let n = toks[pos];
+            let k = toks[pos + 1];
+            let mut ends: Vec<usize> = toks[(pos + 2).min(toks.len())..(pos + 2 + k).min(toks.len())].to_vec();
+            ends.sort();
+            out.n(n).list(&ends);
+            pos += 2 + k;
+        }
+        model_sorted = format!("ok {}", out.text());
+    }
+    r.corr("corr.cmd.renew", &format!("ok {}", imp.text()), if model_sorted.is_empty() { &ans } else { &model_sorted }, case);
+}
+
 /// C12 after a clean-up that prunes the exemptions of `names`: on the store as the next unlocked
 /// run sees it, every remaining exemption criterion of those crates is needed.
 fn c12_kept(r: &mut Report, md: &Metadata, live: &Store, names: &[String], lab: &str, case: &str) {
@@ -745,7 +802,8 @@ pub fn exec_user_history(r: &mut Report, d: &mut Driver, rng: &mut Rng, idx: u64
         let cmd_s = if args.is_empty() { "check".to_owned() } else { args.join(" ") };
         let before = p.files();
         let md = p.md.clone();
-        let verdict_before = p.acquire(false).ok().map(|s| verdict_of(&md, &s));
+        let live_before = p.acquire(false).ok().map(|s| s.clone_for_suggest(false));
+        let verdict_before = live_before.as_ref().map(|s| verdict_of(&md, s));
         let expected = replica(&p, &uc, d);
         let (o, _text) = p.run(&args);
         let after = p.files();
@@ -789,6 +847,9 @@ pub fn exec_user_history(r: &mut Report, d: &mut Driver, rng: &mut Rng, idx: u64
         }
         if matches!(uc, UCmd::AddExemption { .. } | UCmd::RecordViolation { .. }) {
             check_ask(r, d, &p, &uc, &before, &after, &case);
+        }
+        if let UCmd::Renew { krate } = &uc {
+            check_renew(r, d, &p, krate, &before, &after, live_before.as_ref(), &case);
         }
         let live_after = p.acquire(false).ok().map(|s| s.clone_for_suggest(false));
         let verdict_after = live_after.as_ref().map(|s| verdict_of(&md, s));
